@@ -78,7 +78,9 @@ inline std::string addDbColumns(Db* db, Rng& r, bool thorough, int firstNameIdx 
 
 inline void cmpDbTable(const Db& a, const Db& b, Cmp& c, double coordScale = 0.)
 {
+  Cmp::Owner own(c, "Db"); // table part: Db::_serialize / Db::_deserialize whatever the derived class
   bool locDiff = false;
+  std::vector<std::pair<std::string, std::string>> locDiffs;
   c.setSection("getters");
   c.integer("ncol", a.getColumnNumber(), b.getColumnNumber());
   c.integer("nech", a.getSampleNumber(), b.getSampleNumber());
@@ -94,13 +96,23 @@ inline void cmpDbTable(const Db& a, const Db& b, Cmp& c, double coordScale = 0.)
     std::string la = ha ? std::string(ta.getKey()) : "none", lb = hb ? std::string(tb.getKey()) : "none";
     // the field id carries the locator type of the ORIGINAL so that one lost locator kind = one key
     if (la != lb) locDiff = true;
-    if (la != lb) c.fail("locator-type:" + la, fmt("col %d '%s': %s vs %s", icol, a.getNameByColIdx(icol).c_str(), la.c_str(), lb.c_str()));
+    if (la != lb) locDiffs.push_back({la, fmt("col %d '%s': %s vs %s", icol, a.getNameByColIdx(icol).c_str(), la.c_str(), lb.c_str())});
+    if (false) c.fail("locator-type:" + la, fmt("col %d '%s': %s vs %s", icol, a.getNameByColIdx(icol).c_str(), la.c_str(), lb.c_str()));
     else c.st("locator-type").n++;
     if (la == lb && ha) c.integer("locator-rank", ka, kb, fmt("col %d (%s)", icol, la.c_str()));
     for (int iech = 0; iech < nech; iech++)
       c.num("values", a.getValueByColIdx(iech, icol), b.getValueByColIdx(iech, icol), fmt("[%d,%d]", iech, icol));
   }
-  c.setSection("behaviour");
+  {
+    // FACIES / GAUSFAC names collide with the shorter locator names "f" / "g" in locatorIdentify (prefix match): the
+    // column re-labelled F/G then evicts the genuine f1/g1 column. Those evictions are consequences: when a
+    // FACIES/GAUSFAC difference is present only it is reported.
+    bool collision = false;
+    for (auto& d : locDiffs) collision = collision || d.first == "FACIES" || d.first == "GAUSFAC";
+    for (auto& d : locDiffs)
+      if (!collision || d.first == "FACIES" || d.first == "GAUSFAC") c.fail("locator-type:" + d.first, d.second);
+  }
+  if (!c.setSection("behaviour")) return;
   c.integer("getNDim", a.getNDim(), b.getNDim());
   c.integer("nactive", a.getSampleNumber(true), b.getSampleNumber(true));
   c.boolean("isGrid", a.isGrid(), b.isGrid());
@@ -188,6 +200,7 @@ inline double gridScale(const DbGrid& a)
 }
 inline void cmpGridGeom(const DbGrid& a, const DbGrid& b, Cmp& c)
 {
+  Cmp::Owner own(c, "DbGrid");
   c.setSection("getters");
   c.integer("grid.ndim", a.getGrid().getNDim(), b.getGrid().getNDim());
   int ndim = std::min(a.getGrid().getNDim(), b.getGrid().getNDim());
@@ -198,7 +211,7 @@ inline void cmpGridGeom(const DbGrid& a, const DbGrid& b, Cmp& c)
     c.num("grid.dx", a.getDX(i), b.getDX(i), fmt("[%d]", i));
     c.num("grid.angle", a.getAngle(i), b.getAngle(i), fmt("[%d]", i));
   }
-  c.setSection("behaviour");
+  if (!c.setSection("behaviour")) return;
   c.boolean("grid.isRotated", a.getGrid().isRotated(), b.getGrid().isRotated());
   // cell centres computed from the grid definition (rotation included). Error amplification: x0 + i*dx rotated:
   // each term carries 1e-14 relative, the scale is the largest |x0| + extent.
@@ -461,7 +474,7 @@ inline void cmpModel(const Model& a, const Model& b, Cmp& c)
   }
 
   // behaviour: the covariance function itself on probe pairs (Model::eval between two SpacePoints)
-  c.setSection("behaviour");
+  if (!c.setSection("behaviour")) return;
   if (a.getDimensionNumber() != b.getDimensionNumber() || a.getVariableNumber() != b.getVariableNumber()) return;
   if (ncov > 0 && a.getCovaNumber() == b.getCovaNumber())
   {
@@ -496,14 +509,15 @@ inline void cmpModel(const Model& a, const Model& b, Cmp& c)
       for (int i = 0; i < nvar; i++)
         for (int j = 0; j < nvar; j++)
         {
-          // d C / d(log range) is bounded by a few sills for every offered structure at h <= 1.5 ranges, the
-          // oscillating ones (sine cardinal, J-Bessel, cosine-exponential) included: amplification 100
+          // d C / d(log range) = sill * x f'(x), x = scadef * h / range: a few units for the monotone structures, but
+          // ~ x = 30 for the oscillating ones (sine cardinal has scadef 20.4, J-Bessel, cosine-exponential) at h = 1.5
+          // ranges, times the two roundings of range and coefficient: amplification 1000 (calibrated max 0.09)
           double va = a.eval(p1, p2, i, j), vb = b.eval(p1, p2, i, j);
-          c.numScaled("eval" + fieldDep, va, vb, totalSill, 100., fmt("pair %d var (%d,%d)", k, i, j));
+          c.numScaled("eval" + fieldDep, va, vb, totalSill, 1000., fmt("pair %d var (%d,%d)", k, i, j));
         }
     }
     for (int i = 0; i < nvar; i++)
-      for (int j = 0; j < nvar; j++) c.numScaled("eval0" + fieldDep, a.eval0(i, j), b.eval0(i, j), totalSill, 4., fmt("(%d,%d)", i, j));
+      for (int j = 0; j < nvar; j++) c.numScaled("eval" + fieldDep, a.eval0(i, j), b.eval0(i, j), totalSill, 4., fmt("h=0 var (%d,%d)", i, j));
   }
   if (a.getDriftNumber() == b.getDriftNumber() && a.getDriftNumber() > 0)
   {
@@ -537,7 +551,11 @@ inline void exerciseModel(const Model& m, Cmp& c)
 // selection of every neighbourhood on a probe data set: targets = a few probe samples and a few other points
 inline void cmpNeighSelection(ANeigh& a, ANeigh& b, int ndim, bool gridBoth, Cmp& c)
 {
-  c.setSection("behaviour");
+  // the selection is a function of the parameters: when one of them already differs it is not probed again
+  if (c.differs({"flagXvalid", "anisoCoeffs", "flagRotation", "flagAniso", "rotmat", "radius", "nmini", "nmaxi", "nsect", "nsmax",
+                 "width", "skip", "imageRadius", "ndim"}))
+    return;
+  if (!c.setSection("behaviour")) return;
   std::unique_ptr<Db> din, dout;
   if (gridBoth)
   {
@@ -573,6 +591,7 @@ inline void cmpNeighSelection(ANeigh& a, ANeigh& b, int ndim, bool gridBoth, Cmp
 
 inline void cmpANeigh(const ANeigh& a, const ANeigh& b, Cmp& c)
 {
+  Cmp::Owner own(c, "ANeigh");
   c.setSection("getters");
   c.integer("ndim", a.getNDim(), b.getNDim());
   c.integer("type", a.getType().getValue(), b.getType().getValue());
@@ -811,6 +830,10 @@ inline Vario* makeVario(Rng& r, bool thorough, std::string& sig)
   // GENERAL1/2/3 are not drawn: AVario::setCalcul has no case for them and calls messageAbort() -> exit(1) of the
   // whole process while COMPUTING the original (a variogram-calculation defect, not a save/reload one)
   if (onGrid) calc = r.coin(0.7) ? "VARIOGRAM" : "COVARIANCE";
+  // the covariogram in several directions writes out of bounds while being COMPUTED (Vario::_calculateGeneralSolution2
+  // never sets the file-static IDIRLOC used by _setResult -> updateGgByIndex): again not a save/reload matter
+  if (calc == "COVARIOGRAM" && ndir > 1) calc = "COVARIANCE";
+  if (getenv("C08_STATS")) fprintf(stderr, "makeVario ndim=%d nvar=%d ndir=%d grid=%d code=%d opt=%d calc=%s nech=%d\n", ndim, nvar, ndir, (int)onGrid, (int)code, optFlags, calc.c_str(), n);
   Vario* v = Vario::computeFromDb(vp, d, ECalcVario::fromKey(calc));
   if (v == nullptr)
   {
@@ -828,7 +851,7 @@ inline void cmpVario(const Vario& a, const Vario& b, Cmp& c)
   c.integer("ndir", a.getDirectionNumber(), b.getDirectionNumber());
   c.num("scale", a.getScale(), b.getScale());
   c.str("calcul", std::string(a.getCalcul().getKey()), std::string(b.getCalcul().getKey()));
-  c.boolean("flagAsym", a.getFlagAsym(), b.getFlagAsym());
+  if (!c.differs({"calcul"})) c.boolean("flagAsym", a.getFlagAsym(), b.getFlagAsym()); // a function of the calculation mode
   int nvar = std::min(a.getVariableNumber(), b.getVariableNumber());
   int ndir = std::min(a.getDirectionNumber(), b.getDirectionNumber());
   for (int i = 0; i < nvar; i++) c.str("variableName", a.getVariableName(i), b.getVariableName(i), fmt("[%d]", i));
@@ -856,7 +879,7 @@ inline void cmpVario(const Vario& a, const Vario& b, Cmp& c)
     c.num("dir.cylrad", da.getCylRad(), db.getCylRad(), w);
     c.vec("dir.breaks", da.getBreaks(), db.getBreaks());
     c.integer("dir.idate", da.getIdate(), db.getIdate(), w);
-    c.integer("dirSize", a.getDirSize(idir), b.getDirSize(idir), w);
+    if (!c.differs({"calcul"})) c.integer("dirSize", a.getDirSize(idir), b.getDirSize(idir), w);
     if (a.getDirSize(idir) != b.getDirSize(idir)) sameLayout = false;
     int n = std::min(a.getDirSize(idir), b.getDirSize(idir));
     if (sameLayout)
@@ -867,8 +890,9 @@ inline void cmpVario(const Vario& a, const Vario& b, Cmp& c)
         c.num("gg", a.getGgByIndex(idir, i), b.getGgByIndex(idir, i), w + fmt(" [%d]", i));
       }
   }
-  c.setSection("behaviour");
+  if (!c.setSection("behaviour")) return;
   if (!sameLayout || a.getDirectionNumber() != b.getDirectionNumber()) return;
+  if (c.differs({"sw", "hh", "gg", "dir.npas", "dir.dpas"})) return; // the array views below repeat those differences
   for (int idir = 0; idir < ndir; idir++)
     for (int i = 0; i < nvar; i++)
       for (int j = 0; j <= i; j++)
@@ -916,9 +940,11 @@ inline void genLine(Rng& r, int n, double pHard, VectorDouble& x, VectorDouble& 
 
 inline void cmpLine(const PolyLine2D& a, const PolyLine2D& b, Cmp& c, const std::string& pre)
 {
-  c.integer(pre + "npoints", a.getNPoints(), b.getNPoints());
-  c.vec(pre + "x", a.getX(), b.getX());
-  c.vec(pre + "y", a.getY(), b.getY());
+  Cmp::Owner own(c, "PolyLine2D");
+  (void)pre;
+  c.integer("npoints", a.getNPoints(), b.getNPoints());
+  c.vec("x", a.getX(), b.getX());
+  c.vec("y", a.getY(), b.getY());
 }
 
 inline Polygons* makePolygons(Rng& r, bool thorough, std::string& sig)
@@ -973,7 +999,7 @@ inline void cmpPolygons(const Polygons& a, const Polygons& b, Cmp& c)
     c.num("elem.zmax", ea.getZmax(), eb.getZmax(), fmt("[%d]", ip));
     if (ea.getNPoints() != eb.getNPoints()) same = false;
   }
-  c.setSection("behaviour");
+  if (!c.setSection("behaviour")) return;
   if (!same || np == 0) return;
   // inside() on probe points; a point closer to an edge than the 15-digit rounding of the vertices is excluded
   // by construction: probes are drawn on a coarse lattice (multiples of 0.37) while vertices are generic reals
@@ -1037,7 +1063,7 @@ inline void registerVarioPoly(std::vector<Entry>& reg)
     [](const PolyLine2D& a, const PolyLine2D& b, Cmp& c) {
       c.setSection("getters");
       cmpLine(a, b, c, "");
-      c.setSection("behaviour");
+      if (!c.setSection("behaviour")) return;
       if (a.getNPoints() == b.getNPoints() && a.getNPoints() >= 2)
       {
         bool tame = true;
@@ -1090,7 +1116,7 @@ inline void registerVarioPoly(std::vector<Entry>& reg)
         cmpLine(a.getFault(i), b.getFault(i), c, "fault.");
         if (a.getFault(i).getNPoints() != b.getFault(i).getNPoints()) same = false;
       }
-      c.setSection("behaviour");
+      if (!c.setSection("behaviour")) return;
       if (same)
       {
         // segments between lattice points (multiples of 0.37): generic w.r.t. the fault vertices
@@ -1148,7 +1174,7 @@ inline void registerVarioPoly(std::vector<Entry>& reg)
       c.str("title", a.getTitle(), b.getTitle());
       c.integer("colnames.size", (long)a.getColumnNames().size(), (long)b.getColumnNames().size());
       c.integer("rownames.size", (long)a.getRowNames().size(), (long)b.getRowNames().size());
-      c.setSection("behaviour");
+      if (!c.setSection("behaviour")) return;
       if (a.getNRows() == b.getNRows() && a.getNCols() == b.getNCols() && nr > 0)
         for (int j = 0; j < nc; j++) c.vec("getRange", a.getRange(j), b.getRange(j));
     },
@@ -1191,8 +1217,9 @@ inline VectorDouble skewedSample(Rng& r, int n)
   return t;
 }
 
-inline void cmpAnamContinuous(const AnamContinuous& a, const AnamContinuous& b, Cmp& c)
+inline void cmpAnamContinuous(const AnamContinuous& a, const AnamContinuous& b, Cmp& c, bool moments = true, double momentAmp = 1.)
 {
+  Cmp::Owner own(c, "AnamContinuous");
   c.num("azmin", a.getAzmin(), b.getAzmin());
   c.num("azmax", a.getAzmax(), b.getAzmax());
   c.num("aymin", a.getAymin(), b.getAymin());
@@ -1201,8 +1228,11 @@ inline void cmpAnamContinuous(const AnamContinuous& a, const AnamContinuous& b, 
   c.num("pzmax", a.getPzmax(), b.getPzmax());
   c.num("pymin", a.getPymin(), b.getPymin());
   c.num("pymax", a.getPymax(), b.getPymax());
-  c.num("mean", a.getMean(), b.getMean());
-  c.num("variance", a.getVariance(), b.getVariance());
+  if (!moments) return; // recomputed from coefficients that already differ
+  // AnamHermite recomputes mean and variance from the reloaded coefficients (setRCoef -> calculateMeanAndVariance):
+  // variance = sum psi_n^2 carries twice the relative rounding of a coefficient, plus the summation -> budget x 4
+  c.numScaled("mean", a.getMean(), b.getMean(), 0., momentAmp);
+  c.numScaled("variance", a.getVariance(), b.getVariance(), 0., momentAmp);
 }
 // transforms on probe values; 'scale' = magnitude of the raw values. The Hermite expansion sums ~nbpoly terms whose
 // coefficients carry 1e-14 each, the inverse is a bisection on it: amplification 1e3 (documented, generous, and
@@ -1245,13 +1275,13 @@ inline void registerAnam(std::vector<Entry>& reg)
     },
     [](const AnamHermite& a, const AnamHermite& b, Cmp& c) {
       c.setSection("getters");
-      cmpAnamContinuous(a, b, c);
       c.num("rcoef", a.getRCoef(), b.getRCoef());
       c.integer("nbpoly", a.getNbPoly(), b.getNbPoly());
       c.vec("psiHn", a.getPsiHns(), b.getPsiHns());
+      cmpAnamContinuous(a, b, c, !c.differs({"psiHn", "rcoef", "nbpoly"}), 4.);
       c.boolean("flagBound", a.getFlagBound(), b.getFlagBound());
-      c.setSection("behaviour");
-      if (a.getNbPoly() == b.getNbPoly()) cmpAnamTransforms(a, b, a.getPzmin(), a.getPzmax(), c);
+      if (!c.setSection("behaviour")) return;
+      if (a.getNbPoly() == b.getNbPoly() && !c.differs({"psiHn", "rcoef", "flagBound", "p", "a"})) cmpAnamTransforms(a, b, a.getPzmin(), a.getPzmax(), c);
     },
     [](const AnamHermite& a, Cmp& c) {
       (void)c;
@@ -1278,7 +1308,7 @@ inline void registerAnam(std::vector<Entry>& reg)
       c.num("sigma2e", a.getSigma2e(), b.getSigma2e());
       c.vec("zdisc", a.getZDisc(), b.getZDisc());
       c.vec("ydisc", a.getYDisc(), b.getYDisc());
-      c.setSection("behaviour");
+      if (!c.setSection("behaviour")) return;
       if (a.getNDisc() == b.getNDisc() && a.getZDisc().size() == b.getZDisc().size() && !a.getZDisc().empty())
       {
         double lo = a.getZDisc()[0], hi = a.getZDisc()[a.getZDisc().size() - 1];
@@ -1294,6 +1324,7 @@ inline void registerAnam(std::vector<Entry>& reg)
     }));
 
   auto cmpDiscrete = [](const AnamDiscrete& a, const AnamDiscrete& b, Cmp& c) {
+    Cmp::Owner own(c, "AnamDiscrete");
     c.integer("ncut", a.getNCut(), b.getNCut());
     c.integer("nclass", a.getNClass(), b.getNClass());
     c.integer("nelem", a.getNElem(), b.getNElem());
@@ -1312,9 +1343,9 @@ inline void registerAnam(std::vector<Entry>& reg)
       double z = 0.5;
       for (auto& v : zcut) { z += r.uni(0.5, 2.5); v = z; }
       a->setZCut(zcut);
-      int fit = r.coin(0.6);
-      if (fit) fit = a->fitFromArray(skewedSample(r, r.irange(60, 150)));
-      if (!fit)
+      // fitting a DD anamorphosis needs its MAF decomposition computed on a Db first (AnamDiscreteDD::factors_maf reads
+      // getPcaZ2Fs()); the stored fields are set directly through reset(), which is all the file format knows about
+      int fit = 0;
       {
         int nclass = ncut + 1;
         VectorDouble stats(nclass * a->getNElem());
@@ -1335,8 +1366,9 @@ inline void registerAnam(std::vector<Entry>& reg)
       c.vec("pcaZ2F", a.getPcaZ2Fs().getValues(), b.getPcaZ2Fs().getValues());
       c.vec("pcaF2Z", a.getPcaF2Zs().getValues(), b.getPcaF2Zs().getValues());
       c.vec("i2chi", a.getI2Chi().getValues(), b.getI2Chi().getValues());
-      c.setSection("behaviour");
-      if (a.getNCut() == b.getNCut() && a.getNCut() > 0)
+      if (!c.setSection("behaviour")) return;
+      bool fitted = a.getI2Chi().getNRows() == a.getNClass() && b.getI2Chi().getNRows() == b.getNClass();
+      if (a.getNCut() == b.getNCut() && a.getNCut() > 0 && fitted)
       {
         VectorInt ifacs;
         for (int i = 0; i < a.getNCut(); i++) ifacs.push_back(i + 1);
@@ -1348,14 +1380,15 @@ inline void registerAnam(std::vector<Entry>& reg)
           c.integer("z2factor.size", (long)fa.size(), (long)fb.size());
           for (size_t i = 0; i < std::min(fa.size(), fb.size()); i++) c.numScaled("z2factor", fa[i], fb[i], 1., 1e3, fmt("z=%g [%zu]", z, i));
         }
-        c.numScaled("computeVariance", a.computeVariance(0.7), b.computeVariance(0.7), 1., 1e3);
       }
+      if (a.getNCut() == b.getNCut() && a.getNCut() > 0 && !c.differs({"stats", "zcut", "scoef", "mu"}))
+        c.numScaled("computeVariance", a.computeVariance(0.7), b.computeVariance(0.7), 1., 1e3);
     },
     [](const AnamDiscreteDD& a, Cmp& c) {
       c.setSection("invariant");
       c.truth("zcut-size", (int)a.getZCut().size() == a.getNCut(), fmt("%zu cuts stored, ncut=%d", a.getZCut().size(), a.getNCut()));
       (void)a.toString();
-      if (a.getNCut() > 0 && (int)a.getZCut().size() == a.getNCut()) (void)a.z2factor(1., {1});
+      if (a.getNCut() > 0 && (int)a.getZCut().size() == a.getNCut()) (void)a.computeVariance(0.7);
     }));
 
   reg.push_back(mkEntry<AnamDiscreteIR>(
@@ -1382,7 +1415,7 @@ inline void registerAnam(std::vector<Entry>& reg)
       c.setSection("getters");
       cmpDiscrete(a, b, c);
       c.num("rcoef", a.getRCoef(), b.getRCoef());
-      c.setSection("behaviour");
+      if (!c.setSection("behaviour")) return;
       if (a.getNCut() == b.getNCut() && a.getNCut() > 0)
       {
         VectorInt ifacs;
@@ -1465,6 +1498,7 @@ inline void cmpMesh(const AMesh& a, const AMesh& b, Cmp& c, const std::string& p
 {
   c.setSection("getters");
   c.integer(pre + "ndim", a.getNDim(), b.getNDim());
+  if (a.getNDim() != b.getNDim()) return; // every other count derives from it (getNApexPerMesh = ndim + 1, ...)
   c.integer(pre + "napices", a.getNApices(), b.getNApices());
   c.integer(pre + "nmeshes", a.getNMeshes(), b.getNMeshes());
   c.integer(pre + "napexpermesh", a.getNApexPerMesh(), b.getNApexPerMesh());
@@ -1472,19 +1506,21 @@ inline void cmpMesh(const AMesh& a, const AMesh& b, Cmp& c, const std::string& p
               a.getNApexPerMesh() == b.getNApexPerMesh();
   if (!same) return;
   int ndim = a.getNDim();
+  // the bounding box of a rotated grid is x0 + R * (i * dx): every coordinate carries the rounding of the largest
+  // term, so the scale is the largest |coordinate| of the box, not the (possibly near-zero) coordinate itself
   double scale = 0;
+  for (int d = 0; d < ndim; d++) scale = std::max(scale, std::max(std::fabs(a.getExtendMin(d)), std::fabs(a.getExtendMax(d))));
   for (int d = 0; d < ndim; d++)
   {
-    c.numScaled(pre + "extendMin", a.getExtendMin(d), b.getExtendMin(d), 0., 8., fmt("[%d]", d));
-    c.numScaled(pre + "extendMax", a.getExtendMax(d), b.getExtendMax(d), 0., 8., fmt("[%d]", d));
-    scale = std::max(scale, std::max(std::fabs(a.getExtendMin(d)), std::fabs(a.getExtendMax(d))));
+    c.numScaled(pre + "extendMin", a.getExtendMin(d), b.getExtendMin(d), scale, 8., fmt("[%d]", d));
+    c.numScaled(pre + "extendMax", a.getExtendMax(d), b.getExtendMax(d), scale, 8., fmt("[%d]", d));
   }
   int nap = a.getNApices(), nme = a.getNMeshes(), npm = a.getNApexPerMesh();
   for (int i = 0; i < nap; i += std::max(1, nap / 40))
     for (int d = 0; d < ndim; d++) c.numScaled(pre + "apexCoor", a.getApexCoor(i, d), b.getApexCoor(i, d), scale, 8., fmt("[%d,%d]", i, d));
   for (int m = 0; m < nme; m += std::max(1, nme / 60))
     for (int k = 0; k < npm; k++) c.integer(pre + "apex", a.getApex(m, k), b.getApex(m, k), fmt("[%d,%d]", m, k));
-  c.setSection("behaviour");
+  if (!c.setSection("behaviour")) return;
   for (int m = 0; m < nme; m += std::max(1, nme / 10))
   {
     c.numScaled(pre + "getMeshSize", a.getMeshSize(m), b.getMeshSize(m), std::pow(std::max(scale, 1e-300), ndim) * 1e-3, 50., fmt("[%d]", m));
@@ -1536,7 +1572,7 @@ inline void registerMeshes(std::vector<Entry>& reg)
       int n = std::min(a.getLineNumber(), b.getLineNumber());
       for (int i = 0; i < n; i++) c.integer("lineSampleCount", a.getLineSampleCount(i), b.getLineSampleCount(i), fmt("[%d]", i));
       cmpDbTable(a, b, c);
-      c.setSection("behaviour");
+      if (!c.setSection("behaviour")) return;
       c.boolean("isConsistent", a.isConsistent(), b.isConsistent());
       if (a.getLineNumber() == b.getLineNumber() && a.getSampleNumber() == b.getSampleNumber())
       {
@@ -1586,7 +1622,7 @@ inline void registerMeshes(std::vector<Entry>& reg)
       int n = std::min(a.getArcNumber(), b.getArcNumber());
       for (int i = 0; i < n; i++) c.num("arcValue", a.getArcValue(i), b.getArcValue(i), fmt("[%d]", i));
       cmpDbTable(a, b, c);
-      c.setSection("behaviour");
+      if (!c.setSection("behaviour")) return;
       c.boolean("isConsistent", a.isConsistent(), b.isConsistent());
       if (a.getArcNumber() == b.getArcNumber() && a.getSampleNumber() == b.getSampleNumber() && a.isConsistent() && b.isConsistent())
       {
@@ -1634,7 +1670,11 @@ inline void registerMeshes(std::vector<Entry>& reg)
         sel[0] = 1.;
         g->addColumns(sel, "sel", ELoc::SEL, 0);
       }
-      return MeshETurbo::createFromGrid(g.get(), polar, false, mode);
+      MeshETurbo* m = MeshETurbo::createFromGrid(g.get(), polar, false, mode);
+      // with a masked grid and storing mode 0 the ORIGINAL sometimes reports no apex and no mesh at all (a mesh
+      // construction matter, not a save/reload one): such an instance is not a usable original
+      if (m != nullptr && (m->getNApices() <= 0 || m->getNMeshes() <= 0)) { delete m; throw vh::SkipCase{"degenerate-original-mesh"}; }
+      return m;
     },
     [](const MeshETurbo& a, const MeshETurbo& b, Cmp& c) { cmpMesh(a, b, c); }, [](const MeshETurbo& a, Cmp& c) { exerciseMesh(a, c); },
     [](const MeshETurbo& a) { return a.getNDim(); }));
@@ -1747,26 +1787,27 @@ inline void registerMeshes(std::vector<Entry>& reg)
 // ============================================================================================================
 // Rules, fractures, PolyElem
 // ============================================================================================================
-inline void genRuleNames(Rng& r, int depth, int& nfac, VectorString& out, bool onlyS)
+inline void genRuleNames(Rng& r, int depth, int& nfac, VectorString& out, bool onlyS, bool top = true)
 {
-  if (depth <= 0 || r.coin(0.35) || nfac >= 7)
+  if (depth <= 0 || r.coin(top ? 0.05 : 0.35) || nfac >= 7)
   {
     out.push_back(fmt("F%d", ++nfac));
     return;
   }
   out.push_back((onlyS || r.coin(0.55)) ? "S" : "T");
-  genRuleNames(r, depth - 1, nfac, out, onlyS);
-  genRuleNames(r, depth - 1, nfac, out, onlyS);
+  genRuleNames(r, depth - 1, nfac, out, onlyS, false);
+  genRuleNames(r, depth - 1, nfac, out, onlyS, false);
 }
 
 inline void cmpRuleBase(const Rule& a, const Rule& b, Cmp& c)
 {
+  Cmp::Owner own(c, "Rule");
   c.setSection("getters");
   c.integer("modeRule", a.getModeRule().getValue(), b.getModeRule().getValue());
   c.num("rho", a.getRho(), b.getRho());
   c.integer("nfacies", a.getFaciesNumber(), b.getFaciesNumber());
   c.integer("ngrf", a.getGRFNumber(), b.getGRFNumber());
-  c.setSection("behaviour");
+  if (!c.setSection("behaviour")) return;
   if (a.getFaciesNumber() != b.getFaciesNumber()) return;
   Rng pr(1357);
   for (int k = 0; k < 60; k++)
@@ -1896,7 +1937,7 @@ inline void registerRulesFrac(std::vector<Entry>& reg)
       c.integer("nfaults", a.getNFaults(), b.getNFaults());
       for (int i = 0; i < std::min(a.getNFamilies(), b.getNFamilies()); i++) cmpFamily(a.getFamily(i), b.getFamily(i), c, "family.");
       for (int i = 0; i < std::min(a.getNFaults(), b.getNFaults()); i++) cmpFault(a.getFault(i), b.getFault(i), c, "fault.");
-      c.setSection("behaviour");
+      if (!c.setSection("behaviour")) return;
       c.num("getXextend", a.getXextend(), b.getXextend());
     },
     [](const FracEnviron& a, Cmp& c) { (void)c; (void)a.toString(); (void)a.getXextend(); }));
@@ -1916,8 +1957,11 @@ inline void registerRulesFrac(std::vector<Entry>& reg)
     [cmpFault](const FracFault& a, const FracFault& b, Cmp& c) {
       c.setSection("getters");
       cmpFault(a, b, c, "");
-      c.setSection("behaviour");
-      c.numScaled("faultAbscissae", a.faultAbscissae(3.5), b.faultAbscissae(3.5), 100., 20.);
+      if (!c.setSection("behaviour")) return;
+      // coord + cote * tan(orient): d tan / tan = d(theta) / (sin cos); orientations within 6 degrees of the vertical
+      // asymptote amplify the 15-digit rounding of the angle beyond any fixed budget and are not probed
+      double co = std::cos(a.getOrient() * 3.141592653589793 / 180.);
+      if (std::fabs(co) > 0.1) c.numScaled("faultAbscissae", a.faultAbscissae(3.5), b.faultAbscissae(3.5), 100., 4. / (co * co));
     },
     [](const FracFault& a, Cmp& c) {
       c.setSection("invariant");
@@ -1941,7 +1985,7 @@ inline void registerRulesFrac(std::vector<Entry>& reg)
       cmpLine(a, b, c, "");
       c.num("zmin", a.getZmin(), b.getZmin());
       c.num("zmax", a.getZmax(), b.getZmax());
-      c.setSection("behaviour");
+      if (!c.setSection("behaviour")) return;
       if (a.getNPoints() == b.getNPoints()) c.numScaled("getSurface", a.getSurface(), b.getSurface(), 1e4, 20.);
     },
     [](const PolyElem& a, Cmp& c) {
@@ -1951,6 +1995,200 @@ inline void registerRulesFrac(std::vector<Entry>& reg)
       if (a.getNPoints() > 0) (void)a.getSurface();
     },
     [](const PolyElem&) { return 2; }));
+}
+
+
+// ============================================================================================================
+// Grid exchange formats that are both written and read (src/OutputFormat): Zycor, IfpEn, Bmp
+// ============================================================================================================
+} // namespace c08
+#include "OutputFormat/GridZycor.hpp"
+#include "OutputFormat/GridIfpEn.hpp"
+#include "OutputFormat/GridBmp.hpp"
+namespace c08
+{
+struct Exchange
+{
+  std::string name;
+  // a grid inside the domain the format class declares (mustBeGrid / mustBeForNDim / mustBeForRotation); cols = column
+  // indices (UIDs) of the variables to be written
+  std::function<DbGrid*(Rng&, bool, std::string&, VectorInt&)> makeGrid;
+  std::function<int(const DbGrid*, const VectorInt&, const std::string&)> write;
+  std::function<DbGrid*(const std::string&)> read;
+  std::function<void(const DbGrid&, const VectorInt&, const DbGrid&, Cmp&)> compare;
+};
+
+inline DbGrid* exchGrid(Rng& r, int ndim, bool rot, int nvar, bool facies, std::string& sig, VectorInt& cols, int minN)
+{
+  setSpace(ndim);
+  VectorInt nx(ndim);
+  VectorDouble dx(ndim), x0(ndim), angles;
+  for (int i = 0; i < ndim; i++)
+  {
+    nx[i] = r.irange(minN, i == 2 ? 3 : 7);
+    dx[i] = r.uni(0.5, 20);
+    x0[i] = r.uni(-1000, 1000);
+  }
+  if (rot) { angles.resize(ndim, 0.); angles[0] = r.uni(-170, 170); }
+  DbGrid* g = DbGrid::create(nx, dx, x0, angles, ELoadBy::SAMPLE, VectorDouble(), VectorString(), VectorString(), false, false);
+  int n = g->getSampleNumber();
+  bool undef = r.coin(0.5);
+  for (int iv = 0; iv < nvar; iv++)
+  {
+    VectorDouble z(n);
+    for (auto& v : z)
+    {
+      if (undef && r.coin(0.15)) v = TEST;
+      else if (facies) v = (double)r.irange(1, 5);      // category codes
+      else v = r.normal() * 25. + 3. * iv;
+    }
+    int uid = g->addColumns(z, fmt("v%d", iv + 1), ELoc::Z, iv);
+    cols.push_back(uid);
+  }
+  sig += fmt(":ndim=%d:rot=%d:nvar=%d:facies=%d:undef=%d", ndim, (int)rot, nvar, (int)facies, (int)undef);
+  return g;
+}
+
+// six significant digits (printf %g / default ostream precision): relative 5e-6, expressed in units of that budget
+inline void num6(Cmp& c, const std::string& field, double a, double b, double absTol, const std::string& where)
+{
+  Cmp::Stat& s = c.st(field);
+  s.n++;
+  bool ta = (a == TEST), tb = (b == TEST);
+  if (ta || tb) { if (ta != tb) c.fail(field, fmt("%s undefined-ness differs: %.10g vs %.10g", where.c_str(), a, b)); return; }
+  double tol = std::max(absTol, 5.1e-6 * std::max(std::fabs(a), std::fabs(b)));
+  double err = std::fabs(a - b);
+  if (std::isnan(err)) { c.fail(field, fmt("%s %.10g vs %.10g", where.c_str(), a, b)); return; }
+  double ratio = tol > 0 ? err / tol : (err > 0 ? INFINITY : 0.);
+  if (ratio <= 1.) s.maxRel = std::max(s.maxRel, ratio);
+  else c.fail(field, fmt("%s %.10g vs %.10g", where.c_str(), a, b), ratio);
+}
+
+inline const std::vector<Exchange>& exchangeFormats()
+{
+  static std::vector<Exchange> X;
+  if (!X.empty()) return X;
+
+  // ---- Zycor: 2-D, no rotation (GridZycor::mustBeForNDim / mustBeForRotation), first selected variable;
+  //      coordinates %13lf (6 decimals), values %15g (6 significant digits), undefined <-> 0.1E+31.
+  //      The mesh is rebuilt as (xf - x0) / (nx - 1): a single-node axis cannot carry it, so nx >= 2.
+  X.push_back({"GridZycor",
+               [](Rng& r, bool, std::string& sig, VectorInt& cols) { return exchGrid(r, 2, false, 1, r.coin(0.2), sig, cols, 2); },
+               [](const DbGrid* g, const VectorInt& cols, const std::string& path) {
+                 GridZycor f(path.c_str(), g);
+                 f.setCols(cols);
+                 if (!f.isAuthorized()) return 1;
+                 return f.writeInFile();
+               },
+               [](const std::string& path) { GridZycor f(path.c_str()); return f.readGridFromFile(); },
+               [](const DbGrid& o, const VectorInt& cols, const DbGrid& b, Cmp& c) {
+                 c.setSection("exchange");
+                 c.integer("ndim", 2, b.getNDim());
+                 if (b.getNDim() != 2) return;
+                 for (int i = 0; i < 2; i++)
+                 {
+                   c.integer("nx", o.getNX(i), b.getNX(i), fmt("[%d]", i));
+                   num6(c, "x0", o.getX0(i), b.getX0(i), 5.1e-7, fmt("[%d]", i));
+                   // two coordinates rounded to 1e-6 / 2, divided by nx - 1
+                   num6(c, "dx", o.getDX(i), b.getDX(i), 1.02e-6 / std::max(1, o.getNX(i) - 1), fmt("[%d]", i));
+                 }
+                 if (o.getNX(0) != b.getNX(0) || o.getNX(1) != b.getNX(1)) return;
+                 int icolB = b.getColumnNumber() - 1; // the values are the last column of the grid read back
+                 c.truth("has-values", icolB >= 0, "the grid read back has no column");
+                 if (icolB < 0) return;
+                 for (int i = 0; i < o.getSampleNumber(); i++)
+                   num6(c, "values", o.getArray(i, cols[0]), b.getValueByColIdx(i, icolB), 0., fmt("[node %d]", i));
+               }});
+
+  // ---- IfpEn: rotation by the first angle only (mustBeForRotation(mode) = mode <= 1), several variables;
+  //      every number goes through an ostream with the default precision (6 significant digits).
+  //      The format has LAYER_COUNT but no vertical origin / mesh: only nx is compared along the third axis.
+  X.push_back({"GridIfpEn",
+               [](Rng& r, bool, std::string& sig, VectorInt& cols) {
+                 int ndim = r.coin(0.3) ? 3 : 2;
+                 return exchGrid(r, ndim, r.coin(0.4), r.irange(1, 3), r.coin(0.4), sig, cols, 1);
+               },
+               [](const DbGrid* g, const VectorInt& cols, const std::string& path) {
+                 GridIfpEn f(path.c_str(), g);
+                 f.setCols(cols);
+                 if (!f.isAuthorized()) return 1;
+                 return f.writeInFile();
+               },
+               [](const std::string& path) { GridIfpEn f(path.c_str()); return f.readGridFromFile(); },
+               [](const DbGrid& o, const VectorInt& cols, const DbGrid& b, Cmp& c) {
+                 c.setSection("exchange");
+                 VectorInt nxo = o.getNXsExt(3);
+                 c.truth("ndim>=2", b.getNDim() >= 2, fmt("grid read back has %d dimensions", b.getNDim()));
+                 if (b.getNDim() < 2) return;
+                 VectorInt nxb = b.getNXsExt(3);
+                 for (int i = 0; i < 3; i++) c.integer("nx", nxo[i], nxb[i], fmt("[%d]", i));
+                 for (int i = 0; i < 2; i++)
+                 {
+                   num6(c, "x0", o.getX0(i), b.getX0(i), 0., fmt("[%d]", i));
+                   num6(c, "dx", o.getDX(i), b.getDX(i), 0., fmt("[%d]", i));
+                 }
+                 num6(c, "angle", o.getAngle(0), b.getAngle(0), 0., "");
+                 if (nxo[0] != nxb[0] || nxo[1] != nxb[1] || nxo[2] != nxb[2]) return;
+                 int ncol = (int)cols.size();
+                 int first = b.getColumnNumber() - ncol; // variables are the last ncol columns read back
+                 c.truth("has-values", first >= 0, fmt("the grid read back has %d columns for %d variables", b.getColumnNumber(), ncol));
+                 if (first < 0) return;
+                 for (int j = 0; j < ncol; j++)
+                   for (int i = 0; i < o.getSampleNumber(); i++)
+                   {
+                     double vo = o.getArray(i, cols[j]);
+                     // field id tells a category-like 3 (the FLOAT_NULL_VALUE of the writer) from the other values
+                     std::string f = (ncol > 1) ? "values:multi-variable" : (vo == 3. ? "values:equal-to-3" : "values");
+                     num6(c, f, vo, b.getValueByColIdx(i, first + j), 0., fmt("[node %d var %d]", i, j));
+                   }
+               }});
+
+  // ---- Bmp: 2-D, no rotation, one variable. The pixel is a grey level out of 256 (no colour scale given): only the
+  //      image size and the ORDER of the values can come back (quantisation documented by GridBmp::_colorRank:
+  //      level = ncolor * (v - vmin) / (vmax - vmin)); geometry (origin, mesh) is not part of a bitmap.
+  X.push_back({"GridBmp",
+               [](Rng& r, bool, std::string& sig, VectorInt& cols) {
+                 setSpace(2);
+                 std::string s2;
+                 DbGrid* g = exchGrid(r, 2, false, 1, false, s2, cols, 1);
+                 // no undefined value: its colour (black) is also the colour of the lowest level
+                 for (int i = 0; i < g->getSampleNumber(); i++)
+                   if (g->getArray(i, cols[0]) == TEST) g->setArray(i, cols[0], r.normal() * 25.);
+                 sig += s2;
+                 return g;
+               },
+               [](const DbGrid* g, const VectorInt& cols, const std::string& path) {
+                 GridBmp f(path.c_str(), g);
+                 f.setCols(cols);
+                 if (!f.isAuthorized()) return 1;
+                 return f.writeInFile();
+               },
+               [](const std::string& path) { GridBmp f(path.c_str()); return f.readGridFromFile(); },
+               [](const DbGrid& o, const VectorInt& cols, const DbGrid& b, Cmp& c) {
+                 c.setSection("exchange");
+                 c.integer("ndim", 2, b.getNDim());
+                 if (b.getNDim() != 2) return;
+                 for (int i = 0; i < 2; i++) c.integer("nx", o.getNX(i), b.getNX(i), fmt("[%d]", i));
+                 if (o.getNX(0) != b.getNX(0) || o.getNX(1) != b.getNX(1)) return;
+                 int icolB = b.getColumnNumber() - 1;
+                 c.truth("has-values", icolB >= 0, "the grid read back has no column");
+                 if (icolB < 0) return;
+                 int n = o.getSampleNumber();
+                 double vmin = 1e300, vmax = -1e300;
+                 for (int i = 0; i < n; i++) { double v = o.getArray(i, cols[0]); vmin = std::min(vmin, v); vmax = std::max(vmax, v); }
+                 // monotone: a strictly larger value never gets a lower grey level; separated by more than 2 levels of
+                 // the 256 -> strictly higher level
+                 double level = (vmax - vmin) * 1.02 / 256.;
+                 for (int i = 0; i < n; i++)
+                   for (int j = 0; j < n; j++)
+                   {
+                     double vi = o.getArray(i, cols[0]), vj = o.getArray(j, cols[0]);
+                     double gi = b.getValueByColIdx(i, icolB), gj = b.getValueByColIdx(j, icolB);
+                     if (vi < vj) c.truth("grey-order", gi <= gj, fmt("nodes %d,%d: values %g < %g but levels %g > %g", i, j, vi, vj, gi, gj));
+                     if (level > 0 && vj - vi > 2.5 * level) c.truth("grey-separation", gj > gi, fmt("nodes %d,%d: values %g << %g but levels %g, %g", i, j, vi, vj, gi, gj));
+                   }
+               }});
+  return X;
 }
 
 inline const std::vector<Entry>& registry()
